@@ -11,6 +11,9 @@ EXTS = [0, 16, 16 | 8, 1, 16 | 512, 16 | 64, 16 | 128, 16 | 1 << 13]
 FORMATS = [-1, 0, 2, 5, 9, 3]
 
 
+ENUM = {}          # token kind name -> value, filled from the compiled probe (tools/tr_enums.py) by run() / replay()
+
+
 def parse(dump):
     f = dump.split()
     srclen, n, T = int(f[0]), int(f[1]), {}
@@ -27,6 +30,12 @@ def classify(dump, src):
     except (ValueError, IndexError):
         return ["tree-dump-garbled"]          # (a tree so broken that the traversal of harness/treedump.c printed nonsense)
     kinds = []
+    # a cause with its own name: emphasis markers mated across each other (an opener whose closer lies before it), which makes
+    # pair_emphasis_tokens build a container of negative (wrapped) length out of source order - everything else the checker
+    # rejects in such a tree follows from it
+    openers = {ENUM.get(n) for n in ("EMPH_START", "STRONG_START")} - {None}
+    if any(t["ty"] in openers and t["mt"] > 0 and t["mt"] in T and T[t["mt"]]["st"] < t["st"] for t in T.values()):
+        return ["crossed-emphasis-mates"]
     r = T.get(1)
     if r and (r["ty"] != 0 or r["st"] != 0 or r["nx"] or r["pv"]): kinds.append("root-shape")
     if r and r["ln"] < srclen:
@@ -233,16 +242,19 @@ def matcher_part(rep, tier, rng, drv, bad):
     model = common.run_lines_par(drv, scripts, args=["pairmatch"], timeout=1200)
     impl = common.run_lines_par(har, scripts, timeout=1200)
     copies = 0
-    for sc, m, i in zip(scripts, model, impl):
+    # the implementation's heaps are judged by the extracted checkers dl_check / msym_check / order_check, which are proved sound
+    # for "every link leads back", "mates point at each other", "siblings in source order with spans that do not overlap"
+    verdicts = common.run_lines_par(drv, [i if not i.startswith("CRASH") else "0" for i in impl], args=["heapcheck"], timeout=1200)
+    for sc, m, i, vd in zip(scripts, model, impl, verdicts):
         f = m.split(" ", 2)
         if m.startswith("CRASH") or len(f) < 3 or f[1] != "ok":
             bad.append((b"", sc, "matcher-model-stuck", "the matcher model dereferences NULL or runs out of fuel on a well-formed chain: %s" % m[:120])); continue
         copies += max(0, int(f[2].split()[0]) - sc.count("N ") - 1)
         if i.startswith("CRASH"):
             bad.append((b"", sc, "impl-crash", "pair matcher harness crashed: " + i[:200])); continue
-        if not heap_coherent(i):
-            bad.append((b"", sc, "matcher-links-broken", "after token_pairs_match_pairs_inside_token on a well-formed chain a next/prev link or a mate does not "
-                        "point back: %s" % i[:300]))
+        if vd != "111" or not heap_coherent(i):
+            bad.append((b"", sc, "matcher-links-broken", "after token_pairs_match_pairs_inside_token on a well-formed, ordered chain the verified checkers say "
+                        "doubly-linked=%s mates-symmetric=%s source-order=%s: %s" % (vd[0:1], vd[1:2], vd[2:3], i[:300])))
         elif f[2] != i:
             bad.append((b"", sc, "matcher-model-vs-impl", "token_pairs.c and coq/model/PairMatch.v differ: model %s / implementation %s" % (f[2][:200], i[:200])))
     rep.cov["matcher_scripts"] = len(scripts)
@@ -294,6 +306,7 @@ def run(rep, tier, seed):
     enum_values = None
     try:
         enum_values = tr_enums.main()[0]
+        ENUM.update(enum_values)
     except TranslateError as e:
         tr_err = str(e)
     res = common.coq_prove("Properties_C15") if not tr_err else dict(ok=False, theorems=["enum_relations"], failed=["translator: " + tr_err], assumptions={}, output=tr_err)
@@ -362,6 +375,8 @@ def run(rep, tier, seed):
 
 
 def replay(rep, r):
+    try: ENUM.update(tr_enums.main()[0])
+    except Exception: pass
     har = common.build_harness("asan", "treedump")
     drv = common.extract_driver()
     if r.get("matcher"):
